@@ -174,6 +174,18 @@ def device_fmmus(prog, rep, tag):
     for a in wacc:
         st_ = cf.stmts(a[0])[a[1]]
         ok = ok and st_["k"] == "assign" and any(x[0] == "agg" and x[1] == "PdiSegment" for x in Prov(cf)._of_rvalue(st_["rv"]))
+    if wr != {"input", "output"}:
+        # the store may go through a reference chosen per direction (`*match direction { Read => &mut io.input, .. } = w`)
+        taken = {a[3]["p"][-1]["n"] if isinstance(a[3]["p"][-1], dict) else None for a in q.field_accesses(cf, "IoRanges", "input") + q.field_accesses(cf, "IoRanges", "output") if a[2] == "addr_mut"}
+        through = False
+        for bi_ in sorted(cf.live_blocks()):
+            for st_ in cf.stmts(bi_):
+                if st_["k"] == "assign" and st_["place"]["p"] == ["*"] and any(x[0] == "agg" and x[1] == "PdiSegment" for x in Prov(cf)._of_rvalue(st_["rv"])):
+                    tgt = Prov(cf).of_local(st_["place"]["l"])
+                    if has_root(tgt, "field", "IoRanges", "input") and has_root(tgt, "field", "IoRanges", "output"):
+                        through = True
+        if taken == {"input", "output"} and through:
+            wr = {"input", "output"}
     rep.ob(P, "configure_fmmus:io-ranges" + tag, ok and wr == {"input", "output"}, "io.input / io.output are the configured segment minus the group's start address", loc=cf.span, how="dataflow")
 
 
